@@ -8,7 +8,10 @@ LEVEL = 'exploration'
 SALTS = 8
 STEP_BUDGET = 1200
 MAX_SIZE = 20
-RULE = ('each run = one generated argument over sentence letters and truth-functional operators only '
+RULE = ('odd runs sweep a systematic enumeration: every node shape ([negated] operator over literals, 68 shapes) in every '
+        'small literal context (as premise with 0-1 literal premises and a literal conclusion; as conclusion with 0-2 literal '
+        'premises; 39 contexts) in every logic, the quick tier exploring a seed-dependent slice and the thorough tier the whole '
+        'enumeration; even runs = one generated argument over sentence letters and truth-functional operators only '
         '(<=4 letters, depth<=3 quick / <=4 thorough, total size<=20, <=2 biconditionals, 0-3 premises, 30% mutated library examples) in one of '
         'the 57 logics (stratified), one of the 4 optimisation-option combinations, a seeded tie-break '
         'order and cache size, no step/time limit, stepped by the simulator (lost-tick monitor; a 1200-step budget only marks a run inconclusive); '
@@ -20,7 +23,7 @@ ASSUMPTIONS = [
 ]
 
 def plan(tier):
-    return dict(runs=4000 if tier == 'quick' else 120000, timeout=300 if tier == 'quick' else 3600)
+    return dict(runs=4000 if tier == 'quick' else 480000, timeout=300 if tier == 'quick' else 10800)
 
 class Budget:
     """Bounded-progress monitor. A ticking rule applied twice to the same node on the same branch
@@ -51,9 +54,68 @@ def small_enough(prems, conc):
     nb = sum(1 for s in sents for x in refsem.walk(s) if x[0] == 'O' and x[1] in ('Biconditional', 'MaterialBiconditional'))
     return nb <= 2
 
+# -- systematic part: every node shape (operator x negated) in every small literal context
+
+BINOPS = ('Conjunction', 'Disjunction', 'MaterialConditional', 'MaterialBiconditional', 'Conditional', 'Biconditional')
+A_, B_ = ('A', 0, 0), ('A', 1, 0)
+def _neg(x): return ('O', 'Negation', (x,))
+LITS = (A_, B_, _neg(A_), _neg(B_))
+
+def _shapes():
+    out = []
+    for op in BINOPS:
+        for l, r in ((A_, B_), (B_, A_), (A_, A_), (_neg(A_), B_), (A_, _neg(B_))):
+            s = ('O', op, (l, r))
+            out.append(s); out.append(_neg(s))
+    for op in ('Assertion', 'Negation'):
+        for l in (A_, _neg(A_)):
+            s = ('O', op, (l,))
+            out.append(s); out.append(_neg(s))
+    return out
+SHAPES = _shapes()
+
+def _contexts():
+    "(premises, conclusion) templates around a shape X."
+    out = []
+    for c in LITS:
+        out.append((('X',), c))                     # X |- literal
+        for p in LITS:
+            out.append((('X', p), c))               # X, literal |- literal
+    for p in (None,) + LITS:
+        out.append(((p,) if p is not None else (), 'X'))   # [literal] |- X
+    for p in LITS:
+        for q in LITS:
+            if p < q:
+                out.append(((p, q), 'X'))           # literal, literal |- X
+    return out
+CONTEXTS = _contexts()
+ENUM_SIZE = len(SHAPES) * len(CONTEXTS)
+
+def enumerated_case(e, nlogics):
+    "e-th member of the (logic-fastest) enumeration of shape-in-context arguments."
+    k = (e // nlogics) % ENUM_SIZE
+    shape = SHAPES[k % len(SHAPES)]
+    prems, conc = CONTEXTS[k // len(SHAPES)]
+    prems = [shape if p == 'X' else p for p in prems]
+    conc = shape if conc == 'X' else conc
+    return prems, conc
+
 def make_cfg(ctx):
     rng = ctx.rng('workload')
     logic = proofwl.pick_logic(rng, ctx.index, SALTS)
+    if ctx.index % 2 == 1:
+        # systematic half: the slice explored by one batch starts at a seed-dependent offset;
+        # the thorough tier sweeps the whole enumeration (ENUM_SIZE contexts x all logics)
+        wl = proofwl.weighted_logics()
+        off = (ctx.seed * 7919) % (ENUM_SIZE * len(wl))
+        e = off + ctx.index // 2
+        logic = wl[e % len(wl)]
+        prems, conc = enumerated_case(e, len(wl))
+        srng = ctx.rng('schedule')
+        opts = dict(proofwl.ALL_OPT_COMBOS[srng.randrange(4)])
+        opts['is_build_models'] = False
+        return proofsim.Config(logic, prems, conc, opts, order_seed=srng.choice((0, srng.getrandbits(32))),
+            cache=srng.choice(proofsim.CACHE_SIZES), drive='step')
     prof = lexgen.Profile(rng, depth=rng.choice((1, 2, 2, 3, 3) if ctx.tier == 'quick' else (1, 2, 3, 3, 4)))
     if rng.random() < 0.3:
         exs = [e for e in proofwl.example_args() if all(
